@@ -458,6 +458,31 @@ mod c05 {
     }
 
     pub fn emit_slice(v: &Value) -> Value {
+        // extra index forms: element assignment `xs[i] = 5` (list_get_mut) and dict read `d[k]` (dict_get)
+        if let Some(kind) = v["index_kind"].as_str() {
+            let idx = bound_src(v["start"].as_str().unwrap_or("var"), "st").unwrap_or("st".to_string());
+            let (stmt, helper, want0, want1): (String, &str, &str, String) = match kind {
+                "assign" => (format!("    xs[{}] = 5\n", idx), "incan_stdlib::collections::list_get_mut", "mutxs", norm(&idx)),
+                _ => ("    r = d[k]\n".to_string(), "incan_stdlib::collections::dict_get", "d", "k".to_string()),
+            };
+            let src = format!("def main() -> None:\n    mut xs: List[int] = [1, 2, 3]\n    d: Dict[str, int] = {{\"a\": 1}}\n    k: str = \"a\"\n    st: int = 1\n{}", stmt);
+            let got = guarded(|| {
+                let tokens = incan::frontend::lexer::lex(&src).map_err(|e| format!("lex: {:?}", e.first().map(|x| x.message.clone())))?;
+                let prog = incan::frontend::parser::parse(&tokens).map_err(|e| format!("parse: {:?}", e.first().map(|x| x.message.clone())))?;
+                incan::IrCodegen::new().try_generate(&prog).map_err(|e| format!("codegen: {}", e))
+            });
+            let echo = { let mut a = v.clone(); a["source"] = json!(src); a };
+            return match &got {
+                Ok(Ok(code)) => {
+                    let flat: String = code.split_whitespace().collect::<Vec<_>>().join(" ").replace(" :: ", "::");
+                    let args = call_args(&flat, helper).map(|a| a.iter().map(|x| norm(x)).collect::<Vec<_>>());
+                    let ok = matches!(&args, Some(a) if a.len() == 2 && a[0].contains(want0) && a[1].contains(want1.as_str()));
+                    verdict(ok, json!({"helper_call_args": args}), json!({"helper": helper, "args": [want0, want1]}), &echo, "generated call: documented helper, container and index/key in their positions")
+                }
+                Ok(Err(m)) => verdict(false, json!({"front_end_error": m}), json!({"helper": helper}), &echo, "an index form must compile"),
+                Err(m) => verdict(false, json!({"panicked": m}), json!({"helper": helper}), &echo, "front end must not panic"),
+            };
+        }
         let is_str = v["target"].as_str() == Some("str");
         let compact = v["compact"].as_bool().unwrap_or(true);
         let index_only = v["index"].as_bool().unwrap_or(false);
@@ -831,11 +856,17 @@ fn search(oracle: &str, seed: u64, budget: u64, skip: &[String]) -> Value {
                 let f = forms[((k / 12) % 5) as usize];
                 json!({"op": k % 3, "lfloat": (k / 3) % 2 == 0, "rfloat": (k / 6) % 2 == 0, "form": f})
             }
-            "incan::emit_slice" => {
-                // exhaustive: 2 targets x (slice: 4 start x 4 end x 4 step forms x compact/spaced  +  index: 4 forms) = 2 x (128 + 4) = 264
+            "incan::emit_slice" => 'g: {
+                // exhaustive: 2 targets x (slice: 4 start x 4 end x 4 step forms x compact/spaced  +  index: 4 forms) = 2 x (128 + 4) = 264,
+                // plus 4 element-assignment forms and 1 dict read = 269
                 let kinds = ["none", "var", "zero", "neg"];
                 let steps = ["none", "var", "neg", "two"];
-                let k = n % 264;
+                let k0 = n % 269;
+                if k0 >= 264 {
+                    let f = ["var", "zero", "neg", "two"][((k0 - 264) % 4) as usize];
+                    break 'g (if k0 < 268 { json!({"index_kind": "assign", "start": f}) } else { json!({"index_kind": "dict"}) });
+                }
+                let k = k0;
                 let t = if k % 2 == 0 { "str" } else { "list" };
                 let k = k / 2;
                 if k < 128 { json!({"target": t, "start": kinds[(k % 4) as usize], "end": kinds[((k / 4) % 4) as usize], "step": steps[((k / 16) % 4) as usize], "compact": (k / 64) % 2 == 0}) }
